@@ -60,6 +60,17 @@ void *janet_gcalloc(enum JanetMemoryType type, size_t size) {
 void safe_memcpy(void *dest, const void *src, size_t len) {
   for (size_t i = 0; i < len; i++) ((uint8_t *) dest)[i] = ((const uint8_t *) src)[i];
 }
+/* contract of memcmp for the string lengths of the universe (<= 2): 0 iff the first n bytes agree, else the sign of the first
+ * difference (loop-free replacement of CBMC's library model) */
+#ifndef S2_LIBC_MEMCMP
+int memcmp(const void *a, const void *b, size_t n) {
+  const uint8_t *x = a, *y = b;
+  __CPROVER_assert(n <= 2, "C03 harness: compared strings are of the universe");
+  if (n >= 1 && x[0] != y[0]) return x[0] < y[0] ? -1 : 1;
+  if (n >= 2 && x[1] != y[1]) return x[1] < y[1] ? -1 : 1;
+  return 0;
+}
+#endif
 int32_t janet_tablen(int32_t n) { __CPROVER_assert(0, "C03 harness: no resize in this unit (precondition keeps the load below the resize threshold)"); return 2 * S2_CAP; }
 
 /* abstract view of the cache: kind[i] = S2_NULL, S2_DEL or the content id of the live entry */
@@ -236,26 +247,49 @@ void h_sym_symbol(void) {
   REACH("janet_symbol returned");
 }
 
-/* ---- lemma: interning the same bytes twice yields the identical pointer, also after another symbol was removed and the
- *      found symbol was moved forward into the tombstone; symbols interned before stay the unique ones for their bytes ---- */
+/* ---- lemmas in the words of the property, from an arbitrary well-formed cache ----
+ * No-resize precondition, stated before every janet_symbol call on the CURRENT cache: the string is live (the harness view
+ * scans all slots, it does not probe) or the load is below janet_symcache_put's resize threshold. */
+static int s3_live_now(int c) { S3View t; int ok = s3_decode(&t); return ok && s3_slot_of(&t, c) >= 0; }
+#define S3_NO_RESIZE(c) __CPROVER_assume(s3_live_now(c) || (janet_vm.cache_count + janet_vm.cache_deleted) * 2 <= S2_CAP)
+
+/* interning the same bytes twice yields the identical pointer (whether or not the string was known before; the first call
+ * may move the symbol forward into a tombstone) */
 void h_sym_intern_twice(void) {
   S3View o, n;
   s3_any(&o);
-  __CPROVER_assume((o.count + o.deleted + 1) * 2 <= S2_CAP);             /* two new strings fit without a resize */
-  int x = s3_content(), y = s3_content(), z = s3_content();
-  int sy = s3_slot_of(&o, y), sz = s3_slot_of(&o, z);
+  int x = s3_content();
+  S3_NO_RESIZE(x);
   const uint8_t *p1 = janet_symbol(s3_str(x), s3_len(x));
-  int removed = 0;
-  if (y != x && sy >= 0 && nd_int()) { janet_symbol_deinit(o.ptr[sy]); removed = 1; }   /* another symbol is collected */
   const uint8_t *p2 = janet_symbol(s3_str(x), s3_len(x));
-  __CPROVER_assert(p1 == p2, "C03 symbols with the same bytes are identical: interning the same bytes twice yields the same pointer (also after another symbol was removed)");
-  const uint8_t *p3 = janet_symbol(s3_str(z), s3_len(z));
-  if (z == x) __CPROVER_assert(p3 == p1, "C03 symbols with the same bytes are identical: third interning of the same bytes");
-  else if (sz >= 0 && !(removed && z == y)) __CPROVER_assert(p3 == o.ptr[sz], "C03 symbols with the same bytes are identical: a symbol interned earlier is still the one returned for its bytes (not interned a second time)");
-  const uint8_t *p4 = janet_symbol(s3_str(x), s3_len(x));
-  __CPROVER_assert(p4 == p1, "C03 symbols with the same bytes are identical: still the same pointer after other strings were interned");
+  __CPROVER_assert(p1 == p2, "C03 symbols with the same bytes are identical: interning the same bytes twice yields the same pointer");
+  __CPROVER_assert(janet_string_length(p1) == s3_len(x) && p1[0] == 'a' + x, "C03 symbol returned has the bytes asked for");
   int ok = s3_decode(&n);
-  __CPROVER_assert(ok && s3_wf(&n), "C03 symcache: wf_cache holds after the whole sequence");
-  if (removed) REACH("sequence with removal");
+  __CPROVER_assert(ok && s3_wf(&n), "C03 symcache: wf_cache holds after the sequence");
+  if (s3_slot_of(&o, x) >= 0 && s3_slot_of(&n, x) != s3_slot_of(&o, x)) REACH("known symbol was moved into a tombstone");
+  if (s3_slot_of(&o, x) < 0) REACH("new symbol interned twice");
+  REACH("sequence finished");
+}
+
+/* ... also after ANOTHER symbol y was removed (leaving a tombstone) and a found symbol x was moved forward into a tombstone:
+ * every symbol z interned before is still the one returned for its bytes - it is not interned a second time */
+void h_sym_intern_after_remove(void) {
+  S3View o, n;
+  s3_any(&o);
+  int x = s3_content(), y = s3_content(), z = s3_content();
+  int sx = s3_slot_of(&o, x), sy = s3_slot_of(&o, y), sz = s3_slot_of(&o, z);
+  __CPROVER_assume(sy >= 0 && y != x && y != z);
+  janet_symbol_deinit(o.ptr[sy]);                                        /* another symbol is collected */
+  S3_NO_RESIZE(x);
+  const uint8_t *p1 = janet_symbol(s3_str(x), s3_len(x));
+  if (sx >= 0) __CPROVER_assert(p1 == o.ptr[sx], "C03 symbols with the same bytes are identical: a symbol interned earlier is returned for its bytes after another symbol was removed");
+  int moved = sx >= 0 && janet_vm.cache[sx] != p1;
+  S3_NO_RESIZE(z);
+  const uint8_t *p3 = janet_symbol(s3_str(z), s3_len(z));
+  if (z == x) __CPROVER_assert(p3 == p1, "C03 symbols with the same bytes are identical: interning the same bytes again yields the same pointer");
+  else if (sz >= 0) __CPROVER_assert(p3 == o.ptr[sz], "C03 symbols with the same bytes are identical: a symbol interned earlier is not interned a second time after another symbol was moved into a tombstone");
+  int ok = s3_decode(&n);
+  __CPROVER_assert(ok && s3_wf(&n), "C03 symcache: wf_cache holds after the sequence");
+  if (moved && sz >= 0 && z != x) REACH("found symbol moved into the tombstone, then an older symbol looked up");
   REACH("sequence finished");
 }
